@@ -213,6 +213,8 @@ def run(ctx):
     check_effect_tables(ctx, "C15")
     from ..rules_common import check_presence_tests, ARG_SCOPE
     check_presence_tests(ctx, "C15.PRESENCE", classes=ARG_SCOPE.get("C15", []))
+    from ..rules_common import check_param_rebinding
+    check_param_rebinding(ctx, "C15.PARAMS", classes=ARG_SCOPE.get("C15", []))
 
 
 def _fuzzy_negated(test):
